@@ -996,7 +996,32 @@ class Cat(Family):
         return "1" in po and "0" in po
 
 
-THEOREMS = []
+THEOREMS = [
+    "C08.rect_branches_agree",
+    "C08.bbox_contains_rotated_rect",
+    "C08.ellipse_branches_agree",
+    "C08.ellipse_bounds_contain",
+    "C08.circle_spec",
+    "C08.annulus_spec",
+    "C08.range_spec",
+    "C08.polygon_bbox_never_drops",
+    "C08.polygon_impl_eq_evenodd",
+    "C08.categorical_spec",
+    "C08.move_equivariant",
+    "C08.center_moveTo",
+    "C08.range_center_moveTo",
+    "C08.polygon_translate",
+    "C08.polygon_centroid_translate",
+    "C08.rotate_equivariant_rect",
+    "C08.rotate_equivariant_rect_spec",
+    "C08.rotate_equivariant_ellipse_spec",
+    "C08.rotate_equivariant_ellipse",
+    "C08.copy_same",
+    "C08.params_roundtrip",
+    "C08.restore_same",
+    "C08.shape_independent",
+    "C08.projected_chunking",
+]
 
 PROP = Property(
     id="C08",
